@@ -1,4 +1,5 @@
 from ..registry import Harness as H, Obligation as O, Property
+from .. import syntactic
 
 F = "unix_stdin.rs"
 hs = []
@@ -20,7 +21,7 @@ def add(n, sched, calls, any_byte, tier):
     nm = "lines_n%d_%s_c%d%s" % (n, "_".join(str(x) for x in sched) or "empty", calls, "_any" if any_byte else "")
     hs.append(H(nm, F, "successive_lines!(%s, %d, %d, [%s], %d, %s, %d);" % (
         nm, n, k, ", ".join(str(x) for x in sc), calls, "true" if any_byte else "false", n + 3),
-        "17.a" if calls == 2 else "17.b", profile="R", tier=tier, timeout=900, mem_gb=8 if calls == 2 else 14,
+        "17.a" if calls == 2 else "17.b", profile="R", tier=tier, timeout=900, mem_gb=(8 if n <= 3 else 12) if calls == 2 else 14,
         shape={"input_bytes": n, "chunk_schedule": sched, "calls": calls,
                "alphabet": "any text over ASCII + 2-byte UTF-8 characters" if any_byte else "{\\n, x, y}"},
         replay="playback"))
@@ -29,7 +30,7 @@ def add(n, sched, calls, any_byte, tier):
 add(0, [], 2, False, "quick")
 for n in (1, 2, 3, 4):
     for sched in compositions(n):
-        add(n, sched, 2, False, "quick" if n <= 3 or sched in ([4], [1, 1, 1, 1], [2, 2], [1, 3], [3, 1]) else "thorough")
+        add(n, sched, 2, False, "quick" if n <= 3 or sched in ([4], [2, 2]) else "thorough")
 for sched in ([3], [1, 2], [2, 1]):
     add(3, sched, 3, False, "quick" if sched != [2, 1] else "thorough")
 for sched in ([4], [2, 2], [1, 2, 1]):
@@ -51,6 +52,7 @@ PROP = Property(
           ["sys::unix::read_line_from"], "input 4 (thorough 5) bytes"),
     ],
     harnesses=hs,
+    pre_checks=[syntactic.read_line_is_thin_wrapper],
     assumptions=[
         "the harness drives the line-assembly kernel sys::unix::read_line_from over a BufRead model: fill_buf returns the unread part of the chunk currently buffered and performs the next read when it is empty; consume(n) advances; UnixStdin::read_line passes io::stdin().lock(), whose BufReader is trusted to implement that contract",
         "memchr-rs memchr replaced by a scalar loop with the documented contract; virtual memory stubbed (commit succeeds)",
